@@ -29,7 +29,7 @@ MAX_WORKERS = 16
 
 
 def lanes(tier):
-    return [("plain", "plain", 500 if tier == "quick" else 8000), ("hist", "plain", 48 if tier == "quick" else 800)]
+    return [("plain", "plain", 500 if tier == "quick" else 16000), ("hist", "plain", 48 if tier == "quick" else 1600)]
 
 
 def run_history(rng, counters):
